@@ -279,7 +279,8 @@ def _glue(lme_tree, ple_tree):
 
 
 # ----------------------------------------------------------------------------- expressions -> Lean terms
-VEC_NAMES = {"x_prev": "x", "y_prev": "y", "moment_prev": "m", "moment_next": "mn", "x_prev_prev": "xpp", "tmp": "t"}
+VEC_NAMES = {"x_prev": "x", "y_prev": "y", "moment_prev": "m", "moment_next": "mn", "x_prev_prev": "xpp", "tmp": "t",
+             "x_next": "xn"}
 SCA_NAMES = {"mu": "mu", "alpha": "alpha", "gamma": "gamma", "zeta": "zeta", "delta": "delta"}
 
 
@@ -297,6 +298,18 @@ def _term(n):
         if n.value == 0.95:
             return "c95", "s"
         raise Untranslatable(f"expression: unexpected constant {n.value!r}")
+    if isinstance(n, ast.Call) and ast.unparse(n.func) == "np.sqrt" and len(n.args) == 1 and isinstance(n.args[0], ast.Call) \
+            and ast.unparse(n.args[0].func) == "np.sum" and isinstance(n.args[0].args[0], ast.BinOp) \
+            and isinstance(n.args[0].args[0].op, ast.Pow) and ast.unparse(n.args[0].args[0].right) == "2":
+        inner, ty = _term(n.args[0].args[0].left)
+        if ty != "v":
+            raise Untranslatable("expression: norm of a non-vector")
+        return f"sqrt (normSq ({inner}))", "s"
+    if isinstance(n, ast.Call) and ast.unparse(n.func) == "np.abs" and len(n.args) == 1:
+        inner, ty = _term(n.args[0])
+        if ty != "s":
+            raise Untranslatable("expression: np.abs of a non-scalar")
+        return f"(if {inner} < 0 then -({inner}) else {inner})", "s"
     if isinstance(n, ast.Call):
         fn = ast.unparse(n.func)
         args = [_term(a) for a in n.args]
@@ -402,6 +415,22 @@ def translate():
         "momentNext": T(lm, "moment_next", "momentum"), "xNextPgdm": T(lm, "x_next", "momentum"), "zetaNext": T(lm, "zeta", "momentum"),
         "fistaTmp": T(lf, "tmp", "fista"), "xNextFista": T(lf, "x_next", "fista"),
     }
+
+    def err_terms(optimize, what):
+        for n in ast.walk(optimize):
+            if isinstance(n, ast.If) and isinstance(n.test, ast.Compare) and isinstance(n.test.left, ast.Attribute) \
+                    and n.test.left.attr == "mode_stopping_criterion_gradient_descent":
+                out, cur = [], n
+                while True:
+                    out.append(_term(cur.body[0].value)[0])
+                    if len(cur.orelse) == 1 and isinstance(cur.orelse[0], ast.If):
+                        cur = cur.orelse[0]
+                    else:
+                        return out
+        raise Untranslatable(f"{what}: error_value chain not found")
+    eb, em = err_terms(opt_b, "backtracking"), err_terms(opt_m, "momentum")
+    if len(eb) != 4 or len(em) != 4 or err_terms(opt_f, "fista") != em:
+        raise Untranslatable("error_value chains: expected four branches, identical for momentum and FISTA")
 
     def row(e, i, name, args):
         if e is None:
@@ -510,6 +539,12 @@ def xNextPgdm (proj : V → V) (x mn : V) : V := {terms["xNextPgdm"]}
 def zetaNext (zeta c95 : K) : K := {terms["zetaNext"]}
 def fistaTmp (grad : V → V) (kcoef : Nat → K) (delta : K) (k : Nat) (x xpp : V) : V := {terms["fistaTmp"]}
 def xNextFista (proj : V → V) (t : V) : V := {terms["xNextFista"]}
+
+/-- the four `error_value` expressions of the backtracking loop (`xn` = `x_next`, `y` = `y_prev`) and of the momentum / FISTA loops -/
+def errPgdb [Neg K] [Zero K] [LT K] [DecidableLT K] (f : V → K) (sqrt : K → K) (normSq : V → K) (x xn y : V) : List K :=
+  [{", ".join(eb)}]
+def errPgdmFista [Neg K] [Zero K] [LT K] [DecidableLT K] (f : V → K) (sqrt : K → K) (normSq : V → K) (x xn : V) : List K :=
+  [{", ".join(em)}]
 
 end terms
 
